@@ -246,6 +246,17 @@ func main() {
 		t0 := parse(c.State)
 		_ = t0.Materialise(w.root, w.dirs)
 		cache := w.newCache(c.DirList)
+		if c.Phase == "dir-list-shape-reconfigured" {
+			cache = w.newCache([]string{"d1", "d0"})
+			_ = cache.ListDevices()
+			var paths []string
+			for _, d := range c.DirList {
+				paths = append(paths, filepath.Join(w.root, d))
+			}
+			opt, reuse := dirmodel.Dirs(paths...)
+			_ = cache.Configure(opt)
+			reuse()
+		}
 		t1 := t0
 		if c.Then != nil {
 			t1 = parse(c.Then)
@@ -403,6 +414,18 @@ func main() {
 				verify(r, "dir-list-shape", w, ml, t, c, "configured as "+fmt.Sprint(sh), nil)
 				_ = c.Refresh()
 				verify(r, "dir-list-shape-refreshed", w, ml, t, c, "configured as "+fmt.Sprint(sh), nil)
+				// the same list given to a cache with a past: it served the two directories in the other
+				// order before (the empty list must then empty it, a shorter list must drop the rest)
+				past := w.newCache([]string{"d1", "d0"})
+				_ = past.ListDevices()
+				var paths []string
+				for _, d := range sh {
+					paths = append(paths, filepath.Join(w.root, d))
+				}
+				opt, reuse := dirmodel.Dirs(paths...)
+				_ = past.Configure(opt)
+				reuse()
+				verify(r, "dir-list-shape-reconfigured", w, ml, t, past, "a cache of [d1 d0] reconfigured as "+fmt.Sprint(sh), nil)
 				shapeCases++
 			}
 		}
